@@ -566,6 +566,7 @@ def main(argv):
     samples = []
     stats_acc = {}
     concrete = []       # (stream, fail dict, case lines)
+    prefix_of = {}      # id(case) -> ops of all cases of its run up to and including it
     diverged = []       # (stream, div dict, case lines)
     stream_broken = []
     if replay:
@@ -641,6 +642,9 @@ def main(argv):
                 samples.append(dict(stream=sname, run=tag, trace=c[:40]))
             for fl in fails:
                 c = case_by_id(real_cases, fl['case'])
+                if c is not None and STREAMS[sname].get('confirm') and id(c) not in prefix_of and len(prefix_of) < 6:
+                    k = next(i for i, rc in enumerate(real_cases) if rc is c)
+                    prefix_of[id(c)] = [o for rc in real_cases[:k + 1] for o in ops_of_case(rc)]
                 concrete.append((sname, fl, c, binp, proj_rx))
             for d in div:
                 diverged.append((sname, d, real_cases[d['case_index']], binp, proj_rx))
@@ -678,6 +682,7 @@ def main(argv):
             continue
         seen_reason.add(key)
         ops = ops_of_case(c) if c else []
+        no_shrink = False
         if ops and not replay and STREAMS[sname].get('confirm'):
             # streams that involve the wall clock / the scheduler: a failure must reproduce when the case is re-run alone
             again = False
@@ -686,10 +691,19 @@ def main(argv):
                 if any(match_known(prop, sname, x, known) is None for x in _fails):
                     again = True
                     break
+            if not again and c is not None and prefix_of.get(id(c)):
+                # process-level state can leak from earlier cases of the same run (package variables of the daemon):
+                # re-run the run's cases up to and including this one
+                pre_ops = prefix_of[id(c)]
+                _pr, _div, _fails = single_case_eval(sname, binp, prop, pre_ops, workdir, proj_rx, tag='confirm')
+                if any(match_known(prop, sname, x, known) is None and x['case'] == fl['case'] for x in _fails):
+                    again = True
+                    ops = pre_ops
+                    no_shrink = True
             if not again:
                 transients.append(dict(stream=sname, failure=fl['line'], ops=len(ops)))
                 continue
-        small = shrink(sname, binp, prop, ops, workdir, proj_rx, 'monitor') if ops and not replay else ops
+        small = shrink(sname, binp, prop, ops, workdir, proj_rx, 'monitor') if ops and not replay and not no_shrink else ops
         pr, div, fails = single_case_eval(sname, binp, prop, small, workdir, proj_rx, tag='final') if small else (None, [], [])
         path = write_replay(prop, dict(property=prop, kind='monitor-failure-on-implementation', stream=sname,
                                        monitor=fl['line'], ops=small, original_ops=len(ops),
